@@ -303,7 +303,13 @@ func run(c *rig.Ctx) {
 				c.Violate("lockstep-"+class, msg, map[string]any{"program": p.Describe()})
 			}
 		}
-		f.RunCycles(int(c.N(8000, 30000)))
+		if i%2 == 1 {
+			// key events at random machine cycles: they are no business of the CPU's
+			_, keys := f.RunCyclesWithKeys(int(c.N(8000, 30000)), r, 250)
+			c.Count("key_events_during_programs", int64(keys))
+		} else {
+			f.RunCycles(int(c.N(8000, 30000)))
+		}
 		c.Count("lockstep_instructions", f.Instrs)
 		c.Count("lockstep_dispatches", f.Dispatches)
 		c.Eval(f.Instrs)
